@@ -441,6 +441,19 @@ func childC10Loops(raw json.RawMessage) {
 	node, err := simnode.New(simnode.Config{NumVBuckets: 8, BucketName: "b"})
 	must(err)
 	defer node.Close()
+	// watchdog: how long this process was kept from running (a heart-beat that is late because the machine gave the process no
+	// time says nothing about the library); every new maximum above 300 ms is reported at once, the process may die later
+	go func() {
+		worst := 300 * time.Millisecond
+		for {
+			t0 := time.Now()
+			time.Sleep(20 * time.Millisecond)
+			if lag := time.Since(t0) - 20*time.Millisecond; lag > worst {
+				worst = lag
+				fmt.Printf("LAG %d\n", lag.Milliseconds())
+			}
+		}
+	}()
 	type inst struct {
 		ms   membership.Membership
 		mu   sync.Mutex
@@ -909,6 +922,7 @@ func runC10(c *Ctx) {
 	}
 	lres := make([]*c10LoopsRes, nl)
 	lcr := make([]string, nl)
+	lagMs := make([]int, nl)
 	Parallel(nl, 8, func(i int) {
 		cr := RunChild("c10loops", map[string]int64{"Seed": lseeds[i]}, 120*time.Second)
 		for _, l := range cr.Lines {
@@ -922,9 +936,21 @@ func runC10(c *Ctx) {
 		if lres[i] == nil {
 			lcr[i] = fmt.Sprintf("exit %d %s ... %s", cr.ExitCode, cr.Fatal, tail(cr.Stderr, 400))
 		}
+		for _, l := range cr.Lines {
+			var ms int
+			if n, _ := fmt.Sscanf(l, "LAG %d", &ms); n == 1 && ms > lagMs[i] {
+				lagMs[i] = ms
+			}
+		}
 	})
 	for i, r := range lres {
 		rep := map[string]interface{}{"seed": lseeds[i], "how": "vh child c10loops with this seed"}
+		if lagMs[i] >= 700 {
+			// the machine kept the process from running for most of the heart-beat tolerance (1.5 s): not driven
+			c.Count("A':discarded-stalled-process")
+			c.Note("c10loops seed %d: the process was stalled for %d ms; discarded", lseeds[i], lagMs[i])
+			continue
+		}
 		if r == nil {
 			c.Violate("process-died", "the process running instances with the real membership loops died: "+lcr[i], rep)
 			continue
